@@ -95,6 +95,8 @@ def _single_row(e: Optional[ast.AST]) -> bool:
     if e is None:
         return False
     t = dump(e)
+    if t == "Points.empty()":
+        return True  # no parameters at all: the replication is trivially aligned
     if isinstance(e, ast.IfExp):
         return _single_row(e.body) and ("Points.empty()" in dump(e.orelse))
     if isinstance(e, ast.Subscript) and isinstance(e.slice, ast.Tuple) and len(e.slice.elts) == 1 and isinstance(e.slice.elts[0], ast.Name):
@@ -470,9 +472,13 @@ def r6_counts(repo: Repo, rep):
             continue
         rep.saw(fi)
         allocs = []
-        for node in ast.walk(fi.node):
-            if isinstance(node, ast.Assign) and isinstance(node.value, ast.Call) and attr_chain(node.value.func) in ("torch.zeros", "torch.empty", "torch.ones"):
-                allocs.append(node)
+        seen_alloc = set()
+        for q in paths(fi.node):
+            for e in q.events:
+                if e.kind == "eval" and isinstance(e.node, ast.Assign) and isinstance(e.value, ast.Call) and attr_chain(e.value.func) in ("torch.zeros", "torch.empty", "torch.ones") \
+                        and e.node.lineno not in seen_alloc:
+                    seen_alloc.add(e.node.lineno)
+                    allocs.append(ast.copy_location(ast.Assign(targets=e.node.targets, value=e.value), e.node))  # the allocation with its arguments expanded
         if not allocs:
             rep.undecided(R, fi.site(), fi.fq, "result buffer allocation", "none found")
             continue
